@@ -9,6 +9,7 @@ file:line. Exit 0 = every obligation discharged (known findings are printed), 1 
 2 = UNDECIDED (anchor missing, floor not met, analyser error)."""
 import argparse
 import ast
+import copy
 import hashlib
 import json
 import os
@@ -142,6 +143,169 @@ class Report:
 
 
 # ------------------------------------------------------------------------------------------------
+# normalisation: the rules below are written against the shape of the pinned file. Edits that keep
+# the behaviour but change the shape are undone first, so that they are not reported:
+#   N1  `if not (x := e):`            → `x = e` followed by `if not x:`
+#   N2  `if not c: A else: B`         → `if c: B else: A`
+#   N3  a call of a method that did not exist in the pinned file (an extracted helper) whose body is
+#       straight-line up to an optional final return is expanded at its call site
+KNOWN_METHODS = {
+    "BessController": {"__init__", "_get_bess", "add_route_to_module", "delete_module_route_entry", "create_module", "link_modules", "delete_module"},
+    "RouteController": {"__init__", "register_handlers", "start_pinging_missing_entries", "bootstrap_routes", "add_new_route_entry", "_add_neighbor",
+                        "_create_update_module", "add_unresolved_new_neighbor", "_create_module_links", "delete_route_entry", "_forget_unresolved_route",
+                        "_ping_missing_entries", "_probe_addr", "_get_gate_idx", "_netlink_neighbor_handler", "_netlink_route_handler", "cleanup",
+                        "reconfigure", "_parse_route_entry_msg"},
+}
+
+
+def _blocks(node):
+    for field in ("body", "orelse", "finalbody"):
+        b = getattr(node, field, None)
+        if isinstance(b, list) and b and isinstance(b[0], ast.stmt):
+            yield b
+    for h in getattr(node, "handlers", []) or []:
+        yield h.body
+
+
+def _hoist_walrus(tree):
+    n = 0
+    for node in ast.walk(tree):
+        for blk in _blocks(node):
+            i = 0
+            while i < len(blk):
+                st = blk[i]
+                if isinstance(st, ast.If):
+                    t = st.test
+                    holder, attr = st, "test"
+                    if isinstance(t, ast.UnaryOp) and isinstance(t.op, ast.Not):
+                        holder, attr, t = t, "operand", t.operand
+                    elif isinstance(t, ast.Compare):
+                        holder, attr, t = t, "left", t.left
+                    if isinstance(t, ast.NamedExpr) and isinstance(t.target, ast.Name):
+                        asg = ast.Assign(targets=[ast.Name(id=t.target.id, ctx=ast.Store())], value=t.value, lineno=st.lineno, col_offset=st.col_offset)
+                        ast.copy_location(asg, st)
+                        setattr(holder, attr, ast.copy_location(ast.Name(id=t.target.id, ctx=ast.Load()), t))
+                        blk.insert(i, asg)
+                        i += 1
+                        n += 1
+                i += 1
+    return n
+
+
+def _invert_ifs(tree):
+    n = 0
+    for node in ast.walk(tree):
+        if isinstance(node, ast.If) and node.orelse and isinstance(node.test, ast.UnaryOp) and isinstance(node.test.op, ast.Not):
+            node.test = node.test.operand
+            node.body, node.orelse = node.orelse, node.body
+            n += 1
+    return n
+
+
+class _Subst(ast.NodeTransformer):
+    def __init__(self, mapping):
+        self.mapping = mapping
+
+    def visit_Name(self, node):
+        if isinstance(node.ctx, ast.Load) and node.id in self.mapping:
+            return copy.deepcopy(self.mapping[node.id])
+        return node
+
+
+def _inline_helpers(tree):
+    n = 0
+    for cls in tree.body:
+        if not isinstance(cls, ast.ClassDef) or cls.name not in KNOWN_METHODS:
+            continue
+        methods = {m.name: m for m in cls.body if isinstance(m, ast.FunctionDef)}
+        fresh = {k: v for k, v in methods.items() if k not in KNOWN_METHODS[cls.name]}
+
+        def expandable(f):
+            if f.decorator_list or f.args.vararg or f.args.kwarg or f.args.kwonlyargs:
+                return False
+            body = [st for st in f.body if not (isinstance(st, ast.Expr) and isinstance(st.value, ast.Constant))]
+            if not body:
+                return False
+            for st in body[:-1]:
+                if any(isinstance(x, (ast.Return, ast.Yield, ast.YieldFrom)) for x in ast.walk(st)):
+                    return False
+            last = body[-1]
+            if not isinstance(last, ast.Return) and any(isinstance(x, (ast.Return, ast.Yield, ast.YieldFrom)) for x in ast.walk(last)):
+                return False
+            return True
+
+        def expansion(f, call):
+            params = [a.arg for a in f.args.args][1:]
+            defaults = dict(zip(reversed(params), reversed(f.args.defaults))) if f.args.defaults else {}
+            b = bind_args(call, params)
+            for p_, d in defaults.items():
+                b.setdefault(p_, d)
+            if set(b) != set(params):
+                return None
+            pre, mapping = [], {}
+            stored = {x.id for x in ast.walk(f) if isinstance(x, ast.Name) and isinstance(x.ctx, ast.Store)}
+            for p_ in params:
+                a = b[p_]
+                simple = isinstance(a, (ast.Name, ast.Constant)) or (isinstance(a, ast.Attribute) and all(isinstance(x, (ast.Attribute, ast.Name, ast.Load)) for x in ast.walk(a)))
+                if simple and p_ not in stored:
+                    mapping[p_] = a
+                else:
+                    pre.append(ast.copy_location(ast.Assign(targets=[ast.Name(id=p_, ctx=ast.Store())], value=a, lineno=call.lineno, col_offset=0), call))
+            body = [copy.deepcopy(st) for st in f.body if not (isinstance(st, ast.Expr) and isinstance(st.value, ast.Constant))]
+            body = [_Subst(mapping).visit(st) for st in body]
+            ret = None
+            if isinstance(body[-1], ast.Return):
+                ret = body[-1].value
+                body = body[:-1]
+            return pre + body, ret
+
+        for _ in range(4):
+            changed = False
+            for f in methods.values():
+                for node in ast.walk(f):
+                    for blk in _blocks(node):
+                        i = 0
+                        while i < len(blk):
+                            st = blk[i]
+                            call = None
+                            if isinstance(st, ast.Expr) and isinstance(st.value, ast.Call):
+                                call = st.value
+                            elif isinstance(st, (ast.Assign, ast.Return)) and isinstance(st.value, ast.Call):
+                                call = st.value
+                            if call is not None and is_self_attr(call.func) and call.func.attr in fresh and fresh[call.func.attr] is not f and expandable(fresh[call.func.attr]):
+                                exp = expansion(fresh[call.func.attr], call)
+                                if exp is not None:
+                                    stmts, ret = exp
+                                    if isinstance(st, ast.Expr):
+                                        tail = [] if ret is None else [ast.copy_location(ast.Expr(value=ret), st)]
+                                    else:
+                                        st.value = ret if ret is not None else ast.Constant(value=None)
+                                        tail = [st]
+                                    blk[i:i + 1] = stmts + tail
+                                    i += len(stmts) + len(tail)
+                                    n += 1
+                                    changed = True
+                                    continue
+                            i += 1
+            if not changed:
+                break
+        # helpers that are no longer called are dropped from the class, so that the per-class rules
+        # (who touches the caches, who is called under the lock) see the expanded code only
+        called = {c.func.attr for m_ in methods.values() for c in ast.walk(m_) if isinstance(c, ast.Call) and is_self_attr(c.func)}
+        referenced = {x.attr for m_ in methods.values() for x in ast.walk(m_) if is_self_attr(x)}
+        cls.body = [st for st in cls.body if not (isinstance(st, ast.FunctionDef) and st.name in fresh and st.name not in called and st.name not in referenced and expandable(st))]
+    return n
+
+
+def normalize_tree(tree):
+    out = {"walrus_hoisted": _hoist_walrus(tree), "helpers_expanded": _inline_helpers(tree)}
+    out["walrus_hoisted"] += _hoist_walrus(tree)
+    out["ifs_inverted"] = _invert_ifs(tree)
+    ast.fix_missing_locations(tree)
+    return out
+
+
+# ------------------------------------------------------------------------------------------------
 # program model
 
 class Model:
@@ -149,6 +313,7 @@ class Model:
         self.rel = rel
         src = open(path).read()
         self.tree = ast.parse(src, filename=path)
+        self.normalized = normalize_tree(self.tree)
         self.classes, self.funcs = {}, {}
         for n in self.tree.body:
             if isinstance(n, ast.ClassDef):
@@ -235,6 +400,8 @@ def norm(m, expr, env, depth=0, subst=None):
         return expr.id
     if isinstance(expr, ast.NamedExpr):
         return norm(m, expr.value, env, depth + 1, subst)
+    if isinstance(expr, ast.UnaryOp) and isinstance(expr.op, ast.Not):
+        return "not " + norm(m, expr.operand, env, depth + 1, subst)
     if isinstance(expr, ast.Call) and isinstance(expr.func, ast.Name):
         t = m.helper_template(expr.func.id)
         if t:
@@ -256,6 +423,16 @@ def norm(m, expr, env, depth=0, subst=None):
     if isinstance(expr, ast.Subscript):
         return f"{norm(m, expr.value, env, depth + 1, subst)}[{norm(m, expr.slice, env, depth + 1, subst)}]"
     return ast.unparse(expr)
+
+
+def branch_cond(m, node, iff, env):
+    """The condition under which node (inside iff) runs, in normal form, and the branch it is in."""
+    if iff is None:
+        return "", []
+    t = norm(m, iff.test, env)
+    if any(node in ast.walk(b) for b in iff.body):
+        return t, iff.body
+    return (t[4:] if t.startswith("not ") else "not " + t), iff.orelse
 
 
 def is_self_attr(node, name=None):
@@ -375,33 +552,50 @@ def main():
     )
     not_decided = ("the refinement between an arbitrary netlink event history and the BESS module graph; duplicate RTM_NEWROUTE events for one route "
                    "(the controller keeps no set of installed routes); the SIGHUP reconfigure path; failures inside BESS calls")
-    r.extra = {"seed_replay": replay, "seeded_changes_replayed": len(replay)} if replay is not None else {}
+    r.extra = {}
+    if replay is not None:
+        rs, enforce, cur, base = replay
+        r.extra = {"seed_replay": rs, "seeded_changes_replayed": len(rs), "replay_enforced": enforce, "analysed_source_hash": cur, "replay_expectations_recorded_on_source": base}
+    r.extra["source_normalisation"] = m.normalized
     sys.exit(r.finish(explanation, not_decided))
 
 
 def replay_seeds(verif, repo):
-    """Thorough tier: every seeded change recorded for C20 is applied to a scratch copy of the controller
-    (outside /repo and /verif, removed afterwards) and the rules are run on the copy in a child process;
-    the verdict must be the recorded one. A mismatch is a checker regression: UNDECIDED, not a VIOLATION."""
+    """Thorough tier: every recorded change — seeded/ (breaks a property; C20 must report the ones recorded for it)
+    and benign/ (keeps the behaviour; C20 must stay silent) — is applied to a scratch copy of the controller
+    (outside /repo and /verif, removed afterwards) and the rules are run on the copy in a child process; the
+    verdict must be the recorded one. A mismatch is a checker regression: UNDECIDED, not a VIOLATION. The
+    expectations belong to the controller source whose hash is in seeded/BASE_TREE.json; on any other source
+    the replay is still run and written to the evidence but a mismatch is not enforced."""
     import glob
     import shutil
     import subprocess
     import tempfile
-    out = []
+    try:
+        base = json.load(open(os.path.join(verif, "seeded", "BASE_TREE.json"))).get("route_control.py")
+    except (OSError, ValueError):
+        undecided("thorough.seed-replay", "seeded/BASE_TREE.json is missing: the source the replay expectations belong to is unknown")
+    cur = hashlib.sha256(open(os.path.join(repo, "conf", "route_control.py"), "rb").read()).hexdigest()
+    enforce = cur == base
+    jobs = []
     for d in sorted(glob.glob(os.path.join(verif, "seeded", "*"))):
         try:
             meta = json.load(open(os.path.join(d, "meta.json")))
         except (OSError, ValueError):
             continue
         exp = (meta.get("thorough_expectation") or {}).get(PROP)
-        if not exp:
-            continue
+        if exp:
+            jobs.append((os.path.basename(d), os.path.join(d, meta.get("patch_used") or "patch.diff"), exp))
+    for pth in sorted(glob.glob(os.path.join(verif, "benign", "*", "patch.diff"))):
+        if "route_control.py" in open(pth).read():
+            jobs.append(("benign/" + os.path.basename(os.path.dirname(pth)), pth, "silent"))
+    out, mismatch = [], 0
+    for name, patch, exp in jobs:
         scratch = tempfile.mkdtemp(prefix="route-rules-seed-")
         try:
             os.makedirs(os.path.join(scratch, "repo", "conf"))
             shutil.copy(os.path.join(repo, "conf", "route_control.py"), os.path.join(scratch, "repo", "conf"))
-            patch = os.path.join(d, meta.get("patch_used") or "patch.diff")
-            ap = subprocess.run(["patch", "-p1", "-s", "-i", patch], cwd=os.path.join(scratch, "repo"), capture_output=True, text=True)
+            ap = subprocess.run(["patch", "-p1", "-s", "-f", "-i", patch], cwd=os.path.join(scratch, "repo"), capture_output=True, text=True)
             if ap.returncode != 0:
                 got = "patch does not apply"
             else:
@@ -410,11 +604,16 @@ def replay_seeds(verif, repo):
                 got = {0: "silent", 1: "detected"}.get(ch.returncode, "undecided")
         finally:
             shutil.rmtree(scratch, ignore_errors=True)
-        out.append({"seed": os.path.basename(d), "expected": exp, "got": got})
+        out.append({"seed": name, "expected": exp, "got": got})
         if not (exp == got or (exp == "not-decided" and got in ("silent", "detected"))):
-            undecided("thorough.seed-replay", f"seeded change {os.path.basename(d)}: expected {exp}, got {got} — the rule set no longer behaves as confirmed (checker regression, not a finding about the tree)")
-    print(f"{PROP} thorough: {len(out)} seeded changes replayed, all as recorded")
-    return out
+            mismatch += 1
+            if enforce:
+                undecided("thorough.seed-replay", f"recorded change {name}: expected {exp}, got {got} — the rule set no longer behaves as confirmed (checker regression, not a finding about the tree)")
+    if enforce:
+        print(f"{PROP} thorough: {len(out)} recorded changes replayed, all as recorded")
+    else:
+        print(f"{PROP} thorough: {len(out)} recorded changes replayed on a source other than the one the expectations were recorded on; {mismatch} differ (listed in the evidence, not enforced)")
+    return out, enforce, cur, base
 
 
 def run_rules(m, r):
@@ -481,6 +680,8 @@ def run_rules(m, r):
     for f, cmd in ((bc_add, "add"), (bc_del, "delete")):
         for c in calls_in(f, lambda c: isinstance(c.func, ast.Attribute) and c.func.attr == "run_module_command"):
             d = c.args[3] if len(c.args) > 3 else None
+            if isinstance(d, ast.Name):
+                d = single_assignments(f).get(d.id, d)
             okp = False
             if isinstance(d, ast.Dict):
                 kv = {k.value: ast.unparse(v) for k, v in zip(d.keys, d.values) if isinstance(k, ast.Constant)}
@@ -541,8 +742,8 @@ def run_rules(m, r):
     pending_names = {k for k, v in env_u.items() if UN in norm(m, v, env_u)}
     for ret in own_returns(add_unres):
         iff = enclosing(ret, ast.If)
-        t = ast.unparse(iff.test) if iff is not None else ""
-        okr = iff is not None and isinstance(iff.test, ast.UnaryOp) and isinstance(iff.test.op, ast.Not) and ast.unparse(iff.test.operand) in pending_names
+        t, _ = branch_cond(m, ret, iff, {})
+        okr = iff is not None and t.startswith("not ") and t[4:] in pending_names
         r.check(okr, "R20.2", fn(add_unres), "a resolved neighbour is ignored only when nothing waits for it", m.pos(ret), f"return under `{t}`",
                 f"add_unresolved_new_neighbor leaves at line {ret.lineno}" + (f" under `{t}`" if t else "") + ": routes waiting for this next hop are not installed although its MAC is now known")
     # add_new_route_entry: unknown MAC → pending, known MAC → install
@@ -632,7 +833,11 @@ def run_rules(m, r):
                 # same branch as the NeighborEntry creation
                 if inc:
                     blk = enclosing(n, ast.If)
-                    has_new = blk is not None and any(isinstance(x, ast.Call) and isinstance(x.func, ast.Name) and x.func.id == "NeighborEntry" for b in blk.body for x in ast.walk(b)) and any(n in ast.walk(b) for b in blk.body)
+                    has_new = False
+                    if blk is not None:
+                        for branch in (blk.body, blk.orelse):
+                            if any(n in ast.walk(b) for b in branch):
+                                has_new = any(isinstance(x, ast.Call) and isinstance(x.func, ast.Name) and x.func.id == "NeighborEntry" for b in branch for x in ast.walk(b))
                     r.check(has_new, "R20.5", fn(f), "a gate is consumed exactly when a new neighbor entry is created", m.pos(n), "same branch as NeighborEntry(...)", "the counter is advanced on a path that does not create a neighbor entry (or the other way round)")
             elif k == "call:clear" and name == "reconfigure":
                 r.trivial("R20.5", fn(f), "reconfigure clears all caches together (not decided here)", m.pos(n), "SIGHUP path")
@@ -747,10 +952,11 @@ def run_rules(m, r):
         okf = first is not None and any(isinstance(x, ast.Call) and isinstance(x.func, ast.Attribute) and x.func.attr == "delete_module_route_entry" for x in ast.walk(first))
         r.check(okf, "R20.7", fn(del_rt), "for a known next hop the BESS delete is the first action", m.pos(first) if first is not None else m.pos(del_rt), "delete_module_route_entry first", "something precedes the BESS delete in the known-next-hop branch")
     # add path: the only exits of add_new_route_entry are an invalid next hop and a parked route
+    env_n = single_assignments(add_new)
     for ret in own_returns(add_new):
         iff = enclosing(ret, ast.If)
-        t = ast.unparse(iff.test) if iff is not None else ""
-        okr = iff is not None and (("validate_ipv4" in t and t.startswith("not ")) or ("fetch_mac" in t and t.startswith("not ") and any(isinstance(x, ast.Call) and is_self_attr(x.func, "_probe_addr") for b in iff.body for x in ast.walk(b))))
+        t, branch = branch_cond(m, ret, iff, env_n)
+        okr = iff is not None and (("validate_ipv4" in t and t.startswith("not ")) or ("fetch_mac" in t and t.startswith("not ") and any(isinstance(x, ast.Call) and is_self_attr(x.func, "_probe_addr") for b in branch for x in ast.walk(b))))
         r.check(okr, "R20.7", fn(add_new), "a new route is dropped only for an invalid next hop, parked only while its MAC is unknown", m.pos(ret), f"return under `{t}`", f"add_new_route_entry leaves at line {ret.lineno}" + (f" under `{t}`" if t else "") + " without installing or parking the route")
     for ret in own_returns(add_nb):
         r.check(enclosing(ret, ast.ExceptHandler) is not None, "R20.7", fn(add_nb), "_add_neighbor gives up only when BESS refused the route", m.pos(ret), "return inside except", f"_add_neighbor leaves at line {ret.lineno} outside an exception handler: the route or its bookkeeping is skipped")
